@@ -47,7 +47,8 @@ pub open spec fn s_testcase(s: LpS, line_index: int) -> Tcv {
 }
 /// end of a test case: None = error
 pub open spec fn s_end(s: LpS, line_index: int) -> Option<LpS> {
-    if s.cmd.len() == 0 { if s.exps.len() > 0 { None } else { Some(s) } }
+    // nothing collected: nothing to end; expectation lines or an exit code WITHOUT a command belong to no test case: an error
+    if s.cmd.len() == 0 { if s.exps.len() > 0 || s.exit is Some { None } else { Some(s) } }
     else { Some(s_flush(LpS { done: s.done.push(s_testcase(s, line_index)), ..s })) }
 }
 pub open spec fn dollar() -> Seq<char> { seq!['$', ' '] }
@@ -55,7 +56,8 @@ pub open spec fn gt() -> Seq<char> { seq!['>', ' '] }
 /// one line of a test body (`$ cmd`, `> continuation`, `[code]`, expectation): None = error
 pub open spec fn s_body(s: LpS, line: Seq<char>, index: int) -> Option<LpS> {
     if (s.multi || s.cmd.len() == 0) && is_prefix_of(dollar(), line) {
-        let s1 = if s.cmd.len() > 0 { s_end(LpS { in_cmd: true, ..s }, index) } else { Some(LpS { in_cmd: true, ..s }) };
+        // a `$ ` line ends whatever has been collected: the previous test case -- or, when no command is open, lines that follow no command (error)
+        let s1 = s_end(LpS { in_cmd: true, ..s }, index);
         match s1 {
             None => None,
             Some(s1) => Some(LpS { start: if s1.start is None { Some(index as usize) } else { s1.start }, cmd: s1.cmd.push(line.skip(2)), ..s1 }),
